@@ -15,13 +15,14 @@ CONSTANTS MaxRootLinks
 VARIABLES l1, l2, inner, root
 vars == <<l1, l2, inner, root>>
 Raw(n) == [kind |-> "raw", typ |-> -1, len |-> n, hasFS |-> FALSE, fsize |-> 0, bsizes |-> <<>>, links |-> <<>>]
-Sizes == {-1, 0, 1, 2, 3}
+Sizes == {-1, 0, 1, 3}
 LinkTo(T) == [target : T, raw : BOOLEAN, hasT : BOOLEAN, tsize : Sizes]
 SeqsUpTo(S, n) == UNION {[1 .. k -> S] : k \in 0 .. n}
-Node(ls) == [kind : {"unixfs", "nodata"}, typ : {2}, len : {0}, hasFS : BOOLEAN, fsize : {0, 2, 3}, bsizes : {<<>>, <<1>>, <<1, 2>>, <<0, 3>>}, links : ls]
+Node(ls) == [kind : {"unixfs", "nodata"}, typ : {2}, len : {0}, hasFS : BOOLEAN, fsize : {0, 3}, bsizes : {<<>>, <<1>>, <<1, 2>>, <<0, 3>>}, links : ls]
+InnerNode(ls) == [kind : {"unixfs", "nodata"}, typ : {2}, len : {0}, hasFS : BOOLEAN, fsize : {3}, bsizes : {<<>>, <<1, 2>>}, links : ls]
 H == <<l1, l2, inner, root>>
 Init == /\ l1 \in {Raw(n) : n \in {0, 1}} /\ l2 \in {Raw(n) : n \in {1, 2}}
-        /\ inner \in Node({<<[target |-> 1, raw |-> TRUE, hasT |-> TRUE, tsize |-> l1.len], [target |-> 2, raw |-> TRUE, hasT |-> TRUE, tsize |-> l2.len]>>})
+        /\ inner \in InnerNode({<<[target |-> 1, raw |-> TRUE, hasT |-> TRUE, tsize |-> l1.len], [target |-> 2, raw |-> TRUE, hasT |-> TRUE, tsize |-> l2.len]>>})
         /\ root \in Node(SeqsUpTo(LinkTo({0, 1, 2, 3}), MaxRootLinks))
 Next == UNCHANGED vars
 Spec == Init /\ [][Next]_vars
